@@ -57,6 +57,8 @@ func init() {
 type Count int
 type Label string
 type Ratio float64
+type Flag bool
+type Wide int64
 
 type Leaf struct {
 	LeafA int64   `json:"a"`
@@ -154,6 +156,7 @@ var scalarTypes = []reflect.Type{
 	reflect.TypeOf(uint(0)), reflect.TypeOf(uint8(0)), reflect.TypeOf(uint16(0)), reflect.TypeOf(uint32(0)), reflect.TypeOf(uint64(0)),
 	reflect.TypeOf(float32(0)), reflect.TypeOf(float64(0)), reflect.TypeOf(""), reflect.TypeOf(true),
 	reflect.TypeOf(Count(0)), reflect.TypeOf(Label("")), reflect.TypeOf(Ratio(0)),
+	reflect.TypeOf(Flag(false)), reflect.TypeOf(Wide(0)),
 }
 
 var anyType = reflect.TypeOf((*any)(nil)).Elem()
